@@ -46,16 +46,60 @@ type FS struct {
 	SizeUnknown map[string]bool
 }
 
-// Resolve follows symbolic links (a bounded number of them).
+// Cwd is the working directory of every simulated process: names below it
+// and relative names are the same files.
+const Cwd = "/work"
+
+// Resolve turns a path into the name under which the file system knows the
+// file: relative to the working directory, "." and ".." resolved the way the
+// kernel does it — component by component, a symbolic link (to a file or to a
+// directory) followed before the next component is looked at, so that "a/l/.."
+// is the parent of what l points to, not a. A bounded number of links is
+// followed.
 func (f *FS) Resolve(name string) string {
-	for i := 0; i < 8; i++ {
-		t, ok := f.Links[name]
-		if !ok {
-			return name
-		}
-		name = t
+	if len(f.Links) == 0 && !strings.Contains(name, "/") {
+		return name
 	}
-	return name
+	if strings.HasPrefix(name, Cwd+"/") {
+		name = name[len(Cwd)+1:]
+	} else if name == Cwd {
+		name = "."
+	}
+	if strings.HasPrefix(name, "/") {
+		return name // outside the working directory: a name of its own (/dev/stdin)
+	}
+	budget := 16
+	var walk func(dir []string, rest []string) []string
+	walk = func(dir []string, rest []string) []string {
+		for i, c := range rest {
+			switch c {
+			case "", ".":
+				continue
+			case "..":
+				if len(dir) > 0 {
+					dir = dir[:len(dir)-1]
+				}
+				continue
+			}
+			cur := strings.Join(append(append([]string(nil), dir...), c), "/")
+			if t, ok := f.Links[cur]; ok && budget > 0 {
+				budget--
+				if strings.HasPrefix(t, "/") {
+					// absolute targets below the working directory only
+					t = strings.TrimPrefix(strings.TrimPrefix(t, Cwd), "/")
+					return walk(nil, append(strings.Split(t, "/"), rest[i+1:]...))
+				}
+				return walk(dir, append(strings.Split(t, "/"), rest[i+1:]...))
+			}
+			dir = append(append([]string(nil), dir...), c)
+		}
+		return dir
+	}
+	out := walk(nil, strings.Split(name, "/"))
+	if len(out) == 0 {
+		return "."
+	}
+	return strings.Join(out, "/")
 }
 
 func NewFS() *FS {
